@@ -667,7 +667,10 @@ def cache_session(args):
                     dirs.append((outdir, "<out_%s>" % a["out"]))
             sched = step.get("sched") or args.get("sched")
             r = simrun.sim_multi(actors, rundir, home, sched=sched, mtimes=mtimes, dirs=dirs, on_event=on_event,
-                                 fault=step.get("fault"))
+                                 fault=step.get("fault"),
+                                 # first use of a reference that has no index yet: the index next to the (shared) reference is
+                                 # a shared path as well
+                                 shared=[os.path.join(home, ".config", "IsoQuant"), ".db", ".fai"] if args.get("cold_fai") else None)
             clock[0] = max([clock[0]] + [int(v) for v in mtimes.values()]) + 1
             traces.append(r["trace"])
             all_picks.append(r["picks"])
